@@ -50,6 +50,12 @@ def main(argv=None):
         return 2
     modname, fn = REGISTRY[args.prop]
     try:
+        import vector
+
+        want = os.path.realpath(os.path.join(os.environ.get("VERIF_REPO") or "/repo", "src", "vector"))
+        if os.path.realpath(os.path.dirname(vector.__file__)) != want:
+            print(f"MACHINERY-FAILURE: vector imported from {vector.__file__}, expected {want}", file=sys.stderr)
+            return 2
         mod = importlib.import_module(modname)
         if args.replay:
             return getattr(mod, "replay_file")(args.prop, args.replay)
